@@ -88,6 +88,10 @@ def gen_cli_status() -> str:
     out = [HEADER.format(src="src/celpy/__main__.py (main, process_json_doc, CLI_ARG_TYPES, get_options)"),
            "namespace Cel.Gen.Cli\n"]
     main = find_func(m.body, "main")
+    last = main.body[-1]
+    if not (isinstance(last, ast.Return) and isinstance(last.value, ast.Name)):
+        raise TranslationError("main: does not end with `return <status variable>`")
+    SUM = last.value.id          # the status variable (`summary`)
 
     # --- parse error ---------------------------------------------------------------------------------
     t = find_try_with(main.body, "CELParseError")
@@ -110,40 +114,39 @@ def gen_cli_status() -> str:
     inner = [st for st in bool_if.body if isinstance(st, ast.If) and is_bool_test(st.test)]
     if len(inner) != 1:
         raise TranslationError("main: isinstance(result_value, (BoolType, bool)) test not found")
-    tr, fa = bool_status(inner[0].body, "summary")
+    tr, fa = bool_status(inner[0].body, SUM)
     out.append(f"def nullTrue : Nat := {tr}\ndef nullFalse : Nat := {fa}")
-    out.append(f"def nullNonBool : Nat := {plain_status(inner[0].orelse, 'summary')}")
-    out.append(f"def nullPlain : Nat := {plain_status(bool_if.orelse, 'summary')}")
+    out.append(f"def nullNonBool : Nat := {plain_status(inner[0].orelse, SUM)}")
+    out.append(f"def nullPlain : Nat := {plain_status(bool_if.orelse, SUM)}")
     out.append(f"def nullPlainDisplays : Bool := {'true' if calls(bool_if.orelse, 'output_display(result_value)') else 'false'}")
     out.append(f"def nullBooleanDisplays : Bool := {'true' if any('output_display' in ast.unparse(s) for s in bool_if.body) else 'false'}")
-    out.append(f"def nullEvalError : Nat := {plain_status(handler_of(t, 'CELEvalError').body, 'summary')}")
+    out.append(f"def nullEvalError : Nat := {plain_status(handler_of(t, 'CELEvalError').body, SUM)}")
 
     # slurp / ndjson
     if not (len(mode_if.orelse) == 1 and isinstance(mode_if.orelse[0], ast.If) and ast.unparse(mode_if.orelse[0].test) == "options.slurp"):
         raise TranslationError("main: `elif options.slurp:` not found")
     slurp_if = mode_if.orelse[0]
-    slurp_ok = any(isinstance(st, ast.Assign) and ast.unparse(st.targets[0]) == "summary"
+    slurp_ok = any(isinstance(st, ast.Assign) and ast.unparse(st.targets[0]) == SUM
                    and isinstance(st.value, ast.Call) and ast.unparse(st.value.func) == "process_json_doc"
                    for st in slurp_if.body) and any("sys.stdin.read()" in ast.unparse(st) for st in slurp_if.body)
     out.append(f"def slurpIsOneDocument : Bool := {'true' if slurp_ok else 'false'}")
     nd = slurp_if.orelse
-    init = plain_status(nd, "summary")
+    init = plain_status(nd, SUM)
     loops = [st for st in nd if isinstance(st, ast.For) and ast.unparse(st.iter) == "sys.stdin"]
     if len(loops) != 1:
         raise TranslationError("main: `for document in sys.stdin` not found")
     body = loops[0].body
     comb = "other"
-    if len(body) == 1 and isinstance(body[0], ast.Assign) and ast.unparse(body[0].targets[0]) == "summary":
+    if len(body) == 1 and isinstance(body[0], ast.Assign) and ast.unparse(body[0].targets[0]) == SUM:
         v = body[0].value
         if (isinstance(v, ast.Call) and ast.unparse(v.func) == "max" and len(v.args) == 2
-                and sorted(("summary" if ast.unparse(a) == "summary" else
+                and sorted(("summary" if ast.unparse(a) == SUM else
                             ("doc" if isinstance(a, ast.Call) and ast.unparse(a.func) == "process_json_doc" else "?")) for a in v.args) == ["doc", "summary"]):
             comb = "max"
     out.append(f"def ndjsonInit : Nat := {init}")
     out.append(f"def ndjsonCombine : String := {lean_str(comb)}")
     # the last statement of main returns the summary
-    last = main.body[-1]
-    out.append(f"def mainReturnsSummary : Bool := {'true' if isinstance(last, ast.Return) and ast.unparse(last.value) == 'summary' else 'false'}\n")
+    out.append("def mainReturnsSummary : Bool := true\n")
 
     # --- process_json_doc ------------------------------------------------------------------------------
     pj = find_func(m.body, "process_json_doc")
